@@ -124,7 +124,7 @@ var clauseKeywords = map[string]bool{
 	"trusted": true, "bounded": true, "at": true, "frame": true, "inline": true, "pure": true,
 	"balanced": true, "order": true, "noescape": true, "nowrite": true, "fresh": true, "reveal": true,
 	"assume": true, "panics": true, "params": true, "ghost": true, "effects": true, "transfers": true,
-	"havoc": true, "splitpaths": true, "deepinst": true, "assumepre": true, "sortedinput": true, "calls": true, "nocall": true, "returns": true, "abstract": true, "note": true, "guarantees": true, "defines": true, "touches": true, "assumes": true,
+	"havoc": true, "splitpaths": true, "deepinst": true, "assumepre": true, "sortedinput": true, "unwinds": true, "calls": true, "nocall": true, "returns": true, "abstract": true, "note": true, "guarantees": true, "defines": true, "touches": true, "assumes": true,
 }
 
 var labelRe = regexp.MustCompile(`^\[([A-Za-z0-9_\-./<>=:,]+)\]\s*`)
@@ -600,7 +600,7 @@ func parseClauses(c *Contract, file string, body []rawLine) error {
 			} else {
 				c.Extra = append(c.Extra, cla)
 			}
-		case "trusted", "pure", "inline", "frame", "panics", "reveal", "abstract", "havoc", "returns", "note", "effects", "splitpaths", "deepinst", "assumepre", "sortedinput":
+		case "trusted", "pure", "inline", "frame", "panics", "reveal", "abstract", "havoc", "returns", "note", "effects", "splitpaths", "deepinst", "assumepre", "sortedinput", "unwinds":
 			if x.text == "" {
 				c.Flags[x.kw] = "yes"
 			} else {
